@@ -17,6 +17,10 @@ code -> spec: seeded random working directories / destination states / EAPIs / c
               Both directions include modes with set-uid/set-gid/sticky bits combined with -o/-g options for
               insopts/exeopts/diropts/libopts, and `dosym -r` pairs whose directory names are string prefixes of
               sibling names (lib/lib64, doc/doc-extra); the families tagged "all-*" are replayed in every tier.
+              Further "all-*" families: several calls to the same helper object with identical and with changing
+              options incl. symbolic modes (external `install`), a failing call followed by valid ones, doman -i18n
+              with suffixed and unsuffixed pages of one base name, and scripts run under umask 077 (the script's
+              umask applies to both the bash and the python side; PMS modes are absolute).
 Both are judged by Helpers_Trace with the placement functions of Helpers.tla: RejectForbidden, AcceptValid,
 Missing, MissingKeepFile, Extra, Kind, ImpliedDir, Mode, Content, LinkText, RelativeLink, HardLink, Frame.
 
@@ -502,7 +506,7 @@ def run(ck):
         case = cases_by_tid[e["tid"]]
         upto = dict(case, steps=case["steps"][: e["i"]])
         a = e["a"]
-        ck.violation(v["clause"], dict(helper=e["h"], eapi=e["eapi"], rc=e["rc"], died=e["died"], rec=a["rec"], i18n=a["i18n"], rel=a["rel"],
+        ck.violation(v["clause"], dict(helper=e["h"], eapi=e["eapi"], rc=e["rc"], died=e["died"], umask=oct(case.get("umask", 0o022)), rec=a["rec"], i18n=a["i18n"], rel=a["rel"],
                                        kinds=sorted({it["kind"] for it in a["items"]}), tag=case["tag"],
                                        call=render_call(e["h"], a), script=render_script(upto, "$EBD").splitlines()[11:],
                                        image=[["/".join(o["path"]), o["kind"], oct(o["mode"]), o["lnk"]] for o in e["img"]][:40], case=upto))
